@@ -3,6 +3,46 @@
 import json, os, glob, re
 ROOT = '/verif/seeded'
 NEEDS = {
+ 'C01c': ("internal/executor/handle.go processExecuteEvent: i/j slip in the comparator that orders the per-chain timeout roots, so their order is Go's map iteration order",
+          "requests of at least two source chains timing out in the same block, and two executions of that block compared"),
+ 'C02c': ("internal/executor/contracts/interchain.go setDestInterchain: both records read before either is written, so for a service calling itself the receipt counter update is overwritten",
+          "a request of a service to itself, accepted, followed by its receipt"),
+ 'C03c': ("internal/executor/contracts/rule_manager.go Manage: on a rejected master-rule update the proposed rule goes to the old master's status (available) instead of back to bindable; the proof pool takes the first available rule",
+          "an appchain whose master rule refuses some proofs, UpdateMasterRule to a rule registered earlier in the list, the proposal rejected, then a proof the master refuses"),
+ 'C04c': ("internal/executor/contracts/transaction_manager.go setFSM: BEGIN_ROLLBACK + failure receipt ends in FAILURE instead of ROLLBACK",
+          "a request that times out and then receives a failure (not a rollback) receipt"),
+ 'C05c': ("internal/executor/contracts/transaction_manager.go changeMultiTxStatus: children already final keep their status when the group fails by receipt",
+          "a group with a child that already reported success, then another child's failure receipt"),
+ 'C06c': ("internal/executor/executor.go + handle.go: a memory-only set of heights that have a timeout list; receipts only remove from lists of known heights",
+          "a node restart between the request and its receipt; the chain then reaches H+T"),
+ 'C07c': ("internal/executor/handle.go applyTransaction: no revert at the fee stage when gasUsed == GasFailedTx, which equals GasNormalTx",
+          "a plain transfer that succeeds and leaves the sender short of the fee"),
+ 'C08c': ("internal/executor/handle.go applyEthTransaction: the branch for a message rejected by ApplyMessage falls through to code that dereferences the nil result",
+          "an Ethereum-format transaction turned down before it runs (balance below gas*price, wrong nonce, gas below intrinsic)"),
+ 'C09c': ("internal/ledger/chain_ledger_impl.go prepareTransactions: the stored position of a transaction is its rank among the distinct hashes of the block",
+          "a block with two transactions of identical hash followed by another transaction"),
+ 'C10c': ("internal/ledger/account.go getStateJournalAndComputeHash: deleted keys do not enter the hash that feeds the state root",
+          "two blocks that differ only in whether (or which) existing key is deleted"),
+ 'C11c': ("internal/ledger/chain_ledger_impl.go: the chain meta is written on its own before the index batch",
+          "a crash after the chain-meta write and before the index batch and the block-file append"),
+ 'C12c': ("internal/ledger/chain_ledger_impl.go RollbackBlockChain: the new head hash is taken from the parent hash of the old head instead of block target+1",
+          "a rollback over two or more blocks to a non-zero target"),
+ 'C13c': ("internal/ledger/state_accessor.go GetAccount: code looked up in the database before the code cache",
+          "an account whose committed code is changed by a block, read between that block's flush and commit"),
+ 'C14c': ("internal/executor/contracts/role.go handleAuditAdmin: the grant is paid again on an approved re-binding of an audit admin",
+          "an audit admin bound to a node, the node logged out, the admin bound to another node, the proposal approved"),
+ 'C15c': ("internal/repo/repo.go MakeStrategyDecision: t bound to the available instead of the initial electorate",
+          "an open proposal whose expression mentions t, an elector frozen or logged out meanwhile, approvals that satisfy the expression only with the smaller t"),
+ 'C16c': ("internal/executor/contracts/appchain_manager.go UnPauseAppchain: services un-paused whatever status the appchain returns to",
+          "an appchain frozen, then UpdateMasterRule on it, the proposal approved"),
+ 'C17c': ("internal/executor/contracts/service_manager.go UpdateService: the caller check moved behind the no-proposal fast path",
+          "a caller that is not the chain's admin updating intro or permits with name and details repeated verbatim"),
+ 'C18c': ("pkg/order/mempool/mempool.go SetBatchSeqNo: a lower sequence number forgets which transactions are batched",
+          "a batch in flight, SetBatchSeqNo with a lower value (re-elected leader), another batch before the commit"),
+ 'C19c': ("pkg/order/mempool/tx_store.go nonceCache: locks released before the ledger lookup, so check-then-fill of the commit nonce is not atomic",
+          "a concurrent pending-nonce query of an uncached account descheduled inside the ledger lookup while that account's transaction is admitted, batched and committed"),
+ 'C20c': ("pkg/order/syncer/state_syncer.go calcRangeHeight: a counted loop drops trailing fetch windows",
+          "a sync span that is not aligned to the fetch size and crosses a window boundary late, e.g. (8,12,5)"),
  'C11b': ("internal/ledger/state_accessor.go Commit: the journal range markers are written in a second batch after the data batch",
           "a crash between the two durable writes of the state commit, before the chain batch of that block"),
  'C12b': ("internal/ledger/state_accessor.go RollbackState: a rollback to height 0 passes the window check whatever the window is",
